@@ -438,6 +438,11 @@ impl<'t> W<'t> {
                     if a.starts_with("RD") {
                         let b: Vec<String> = (0..dims).map(|_| format!("{}", self.t.range(1, 5))).collect();
                         self.emit(format!("REDIM {}({})", a, b.join(", ")));
+                        if self.t.chance(1, 3) {
+                            // dimensioned again right away (inside a subprogram this is the second REDIM of a SHARED array)
+                            let b2: Vec<String> = (0..dims).map(|_| format!("{}", self.t.range(1, 6))).collect();
+                            self.emit(format!("REDIM {}({})", a, b2.join(", ")));
+                        }
                         return;
                     }
                 }
@@ -683,7 +688,15 @@ impl<'t> W<'t> {
             let redim = self.t.chance(1, 4);
             let name = format!("{}{}{}", if redim { "RD" } else { "AR" }, k + 1, if is_str { "$" } else { *self.t.pick(&["%", "&", "!", "#"]) });
             let b: Vec<String> = (0..dims).map(|_| if self.t.chance(1, 2) { format!("{}", self.t.range(1, 4)) } else { format!("{} TO {}", self.t.range(-2, 1), self.t.range(1, 3)) }).collect();
-            self.lines.push(format!("{} {}({})", if redim { "REDIM" } else { "DIM" }, name, b.join(", ")));
+            let shared = if self.t.chance(1, 3) { " SHARED" } else { "" };
+            if redim && self.t.chance(1, 3) {
+                // extended style: referenced (and dimensioned again) through the bare name
+                let name = format!("RD{}x", k + 1);
+                self.lines.push(format!("REDIM{} {}({}) AS {}", shared, name, b.join(", "), if is_str { "STRING" } else { "INTEGER" }));
+                self.arrays.push((name, dims, is_str));
+                continue;
+            }
+            self.lines.push(format!("{}{} {}({})", if redim { "REDIM" } else { "DIM" }, shared, name, b.join(", ")));
             self.arrays.push((name, dims, is_str));
         }
         if self.t.chance(1, 3) {
